@@ -34,17 +34,17 @@ CHECKS = {
     "C02": ("fault_enumeration", "vf-stark",
             "property-based testing / fault injection (proptest): corrupted cells, perturbed public inputs and proof contexts; oracle = reference validity predicate",
             "Fault enumeration over the C01 family: one cell of a valid trace (main or auxiliary segment) is corrupted at steps drawn from the boundary classes the property names (0, 1, last enforced step, n-k, n-k+1, n-1, every asserted step) and at random positions, exhaustively over every cell of a few small traces; the harness' reference validity predicate decides whether the result is still valid (then it must still prove and verify) or invalid (then no accepted proof may exist; the prover is built without debug assertions so it does not self-check). Accepted proofs are also verified against every kind of perturbed public input and against changed trace shapes / parameters in the proof context and must be rejected.",
-            "Acceptance by luck has probability < 2^-40 per case (random OOD point hitting a root). Panics of prover or verifier count as 'not accepted' here and are C06's subject. Perturbations that leave the statement unchanged are excluded and counted.",
+            "Acceptance by luck has probability < 2^-40 per case (random OOD point hitting a root); proofs over all-constant traces that are bound to their seed by fewer than 40 bits (few queries, small domain) are left out of the other-statement oracle and counted. Correlated faults (several asserted cells of an exempted row whose errors cancel) and faults in the Lagrange kernel column are injected as well. Panics of prover or verifier count as 'not accepted' here and are C06's subject. Perturbations that leave the statement unchanged are excluded and counted.",
             "DESIGN.md 3/C02"),
     "C04": ("exploration", "vf-stark",
             "property-based testing (proptest) with a recording public coin; oracle = transcript derived from the proof object and replayed on a fresh coin",
-            "Generated-input search: prover and verifier are run with a RecordingCoin (substituted through their public type parameters). The harness derives the protocol's transcript from the proof object alone (context and public inputs as seed; roots parsed from the commitments; OOD hashes recomputed from the proof's bytes; draw counts from the AIR; nonce and query parameters), replays it on a fresh DefaultRandomCoin and requires both recorded transcripts to equal it operation by operation (the verifier's unused extra folding challenge is the only tolerated difference), so a message that is not absorbed, absorbed late, or absorbed with a recomputed instead of the transmitted value is detected even if prover and verifier agree with each other. Metamorphic part: disturbing any absorbed message changes every later challenge.",
+            "Generated-input search: prover and verifier are run with a RecordingCoin (substituted through their public type parameters). The harness derives the protocol's transcript from the proof object alone (context and public inputs as seed; roots parsed from the commitments; OOD hashes recomputed from the proof's bytes; draw counts from the AIR; nonce and query parameters), replays it on a fresh DefaultRandomCoin and requires both recorded transcripts to equal it operation by operation (the verifier's unused extra folding challenge is the only tolerated difference), so a message that is not absorbed, absorbed late, or absorbed with a recomputed instead of the transmitted value is detected even if prover and verifier agree with each other. The context part of the seed is compared with the documented element layout computed from the harness' own inputs. Metamorphic part: disturbing any absorbed message (and perturbing the nonce by 1, p, 2p, the top bit) changes every later challenge / the query positions.",
             "Assumes hash functions behave as random oracles for 'changes later challenges'. Sizes as in C01 (smaller). The order of absorption is taken from the protocol description in the prover/verifier documentation.",
             "DESIGN.md 3/C04"),
     "C17": ("exploration", "vf-stark",
             "property-based testing (proptest): differential against an executable definition of the composition polynomial at generated points",
-            "Generated-input search: for GenAir instances (periodic columns of several cycle lengths, sequence assertions on both sides of the representation switch, non-zero first steps, exemptions > 1, aux segment, extensions, ce-blowup < lde-blowup) the value sum x^(i n) H_i(x) of the polynomial the prover would commit to (DefaultTraceLde -> DefaultConstraintEvaluator -> CompositionPoly, public API) is compared at 4 generated extension-field points with the definition computed over integer residues (trace polynomials by naive inverse DFT, rules on (T(x), T(gx)), periodic polynomials by Lagrange interpolation at x^(n/cycle), quotients by model zero sets, assertion polynomials by Lagrange interpolation); the verifier-side evaluation assembled from the air crate's public building blocks on the reference frame must give the same value.",
-            "Lagrange-kernel constraints are not modelled here (C01/C04 cover them end to end). Agreement at 4 random points of a field of >= 2^62 elements is taken as polynomial identity (error < 2^-40). Composition coefficients are chosen by the harness (boundary coefficients all equal, or distinct with the assignment read through public accessors).",
+            "Generated-input search: for GenAir instances (periodic columns of several cycle lengths, sequence assertions on both sides of the representation switch, non-zero first steps, exemptions > 1, aux segment with and without a Lagrange kernel column, extensions, ce-blowup < lde-blowup) the value sum x^(i n) H_i(x) of the polynomial the prover would commit to (DefaultTraceLde -> DefaultConstraintEvaluator -> CompositionPoly, public API) is compared at 4 generated extension-field points with the definition computed over integer residues (trace polynomials by naive inverse DFT, rules on (T(x), T(gx)), periodic polynomials by Lagrange interpolation at x^(n/cycle), quotients by model zero sets, assertion polynomials by Lagrange interpolation); the verifier-side evaluation assembled from the air crate's public building blocks on the reference frame must give the same value.",
+            "The Lagrange kernel column's constraints are part of the definition. Agreement at 4 random points of a field of >= 2^62 elements is taken as polynomial identity (error < 2^-40). Composition coefficients are chosen by the harness (boundary coefficients all equal, or distinct with the assignment read through public accessors).",
             "DESIGN.md 3/C17"),
     "C16": ("exploration", "vf-air",
             "exhaustive enumeration (run.enumerate) + property-based testing (proptest) against an independent step-set model",
@@ -58,8 +58,8 @@ CHECKS = {
             "DESIGN.md 3/C18"),
     "C03": ("fault_enumeration", "vf-stark",
             "property-based testing / fault injection (proptest + exhaustive enumeration): byte-level and adaptive mutations of accepted proofs; oracle = parse, compare decoded content, verify",
-            "Fault enumeration on accepted proofs of generated GenAir instances: every single-bit flip of a basket of small proofs (exhaustive), structure-aware mutations of every field of the layout (boundary values for every length/count/scalar, zero/fill/flip/rotate/swap of data blocks i.e. reordered openings, truncation and extension of every length-prefixed component with and without prefix fix-up, cuts, trailing bytes), and consistency-preserving substitutions computed from the verifier's query positions (FRI remainder + c*V(queried points), an unused GKR proof, trailing bytes in the Lagrange OOD block, other nonces). A mutant must fail to parse, decode to the same proof (excluded), fall under the listed exclusions, or be rejected.",
-            "Exclusions: FRI partition count edits (listed by the property); a nonce edit that satisfies the proof-of-work condition and provably (coin replay) yields the same query positions. Panics count as 'not accepted' here (C06's subject). Collision resistance of the hashers assumed.",
+            "Fault enumeration on accepted proofs of generated GenAir instances: every single-bit flip of a basket of small proofs (exhaustive), structure-aware mutations of every field of the layout (boundary values for every length/count/scalar, zero/fill/flip/rotate/swap of data blocks i.e. reordered openings, truncation and extension of every length-prefixed component with and without prefix fix-up, cuts, trailing bytes), and consistency-preserving substitutions computed from the verifier's query positions (FRI remainder + c*V(queried points), an unused GKR proof, trailing bytes in the Lagrange OOD block, other nonces incl. nonce + p / + 2p / top bit, a surplus node vector in a batch opening, trace metadata extended by zero bytes). A mutant must fail to parse, decode to the same proof (excluded), fall under the listed exclusions, or be rejected.",
+            "Exclusions: FRI partition count edits (listed by the property); a nonce edit that satisfies the proof-of-work condition and yields the same query positions by the transcript replayed with the harness' own reference hashers and coin (vf-ref; honest proofs are cross-checked against it). Baselines over all-constant traces bound to their seed by fewer than 40 bits are not used. Panics count as 'not accepted' here (C06's subject). Collision resistance of the hashers assumed.",
             "DESIGN.md 3/C03"),
     "C06": ("fault_enumeration", "vf-stark",
             "property-based testing / fuzzing-style mutation (proptest + exhaustive enumeration) with panic capture, measuring allocator, fatal-signal containment and watchdog",
@@ -68,8 +68,8 @@ CHECKS = {
             "DESIGN.md 3/C06"),
     "C05": ("fault_enumeration", "vf-fri",
             "property-based adversarial testing (proptest) with adaptive provers (AdvFri) and an exact legitimacy oracle",
-            "Fault enumeration: 11 adversary strategies in 6 families (honest folding of random / too-high-degree / partially corrupted functions, over-long remainder, switching to another function at some layer, values opened from another chain or solved after the queries so that only one Merkle check can notice, folding with a wrong challenge incl. crafted instances only that one consistency check can notice, omitted / duplicated / swapped layers, remainder interpolated after the queries) played by an independent FRI prover that writes FriProof wire bytes itself against the real FriVerifier/DefaultVerifierChannel, over folding 2/4/8/16, all remainder sizes, blowups, 1..255 queries, base and extension fields, six hashers. Acceptance is allowed only when an exact ground-truth verdict computed from the actual query positions shows that nothing visible was wrong.",
-            "Panics on omitted/duplicated layers are labelled, not judged (C06's subject). Degree bounds other than 2^k-1 and more than one partition are not explored. Collision resistance assumed.",
+            "Fault enumeration: 13 adversary strategies in 6 families (honest folding of random / too-high-degree / partially corrupted functions, over-long remainder, switching to another function at some layer, values opened from another chain or solved after the queries so that only one Merkle check can notice, folding with a wrong challenge incl. crafted instances only that one consistency check can notice, omitted / duplicated / swapped layers, remainder interpolated after the queries with and without sending its commitment, rows solved after the queries under a partition count above the number of rows) played by an independent FRI prover that writes FriProof wire bytes itself against the real FriVerifier/DefaultVerifierChannel, over folding 2/4/8/16, all remainder sizes, blowups, 1..255 queries, base and extension fields, six hashers. Acceptance is allowed only when an exact ground-truth verdict computed from the actual query positions shows that nothing visible was wrong.",
+            "Panics on omitted/duplicated layers are labelled, not judged (C06's subject). Degree bounds other than 2^k-1 are not explored; more than one partition only in the hostile form named above. Collision resistance assumed.",
             "DESIGN.md 3/C05"),
     "C15": ("exploration", "vf-fri",
             "property-based testing (proptest) with an independent coefficient-domain reference model (vf-ref) and a differential byte-level prover (AdvFri honest)",
@@ -83,12 +83,12 @@ CHECKS = {
             "DESIGN.md 3/C12"),
     "C13": ("exploration", "vf-serde",
             "stateful / model-based property-based testing (proptest): operation sequences against SliceReader as the model",
-            "Generated-input search over histories: 1..59-operation sequences over all 17 ByteReader operations x byte streams <= 2000 bytes x 6 source-chunking classes (1-byte, <16, random, around 255/256/257, around 511/512, one big chunk); ReadAdapter is compared step by step with SliceReader (Cursor must agree too): identical values, the same error variant at the same step, check_eor one-sided (adapter Err implies model Err), has_more_bytes, final drain (each byte consumed exactly once); plus requests near usize::MAX.",
-            "Zero-length source reads before EOF are not generated (Ok(0) means EOF by std::io::Read). The source never fails. Out-of-bounds reads that do not crash are not observable (no sanitizer tier).",
+            "Generated-input search over histories: 1..59-operation sequences over all 17 ByteReader operations x byte streams <= 2000 bytes x 6 source-chunking classes (1-byte, <16, random, around 255/256/257, around 511/512, one big chunk); ReadAdapter is compared step by step with SliceReader (Cursor must agree too): identical values, the same error variant at the same step, check_eor one-sided (adapter Err implies model Err), has_more_bytes, final drain (each byte consumed exactly once); two fifths of the sequences continue after a failed operation; plus requests near usize::MAX. A libFuzzer target (read_adapter, ASan) decodes bytes into the same cases and applies the same oracle.",
+            "Zero-length source reads before EOF are not generated (Ok(0) means EOF by std::io::Read). The source never fails. The sanitizer tier is the libFuzzer stage only.",
             "DESIGN.md 3/C13"),
     "C14": ("exploration", "vf-conc",
             "differential property-based testing (proptest): the same generated workload executed by a build without and a build with the `concurrent` feature, over many rayon pool sizes and repetitions",
-            "Generated-input search with sampled schedules: workload items on both sides of every concurrency threshold (FFT variants, power series, batch inversion, add_in_place, mul_acc, transpose_slice, Merkle trees, segmented RowMatrix LDE + row commitments for 1..255 columns, FRI apply_drp + hash_values, whole GenAir proofs with constraint-evaluation domains on both sides of 8192 rows) are computed by the serial build and by the concurrent build inside rayon pools of 1,2,3,4,5,7,8,12,16,24,32,48,64 threads, 2-3 repetitions each; digests of all deterministic outputs (for proofs: context, trace/constraint/FRI commitments, OOD frame; both proofs must verify) must be bit-identical; nonce and query data are exempt.",
+            "Generated-input search with sampled schedules: workload items on both sides of every concurrency threshold (FFT variants, power series, batch inversion, add_in_place, mul_acc, transpose_slice, Merkle trees, segmented RowMatrix LDE + row commitments for 1..255 columns, FRI apply_drp + hash_values, whole GenAir proofs with constraint-evaluation domains on both sides of 8192 rows) are computed by the serial build and by the concurrent build inside rayon pools of 1,2,3,4,5,7,8,12,16,24,32,48,64 threads, 2-3 repetitions each, and once under every other pool size 1..64 (whole proofs: five more sizes derived from the item); digests of all deterministic outputs (for proofs: context, trace/constraint/FRI commitments, OOD frame; both proofs must verify) must be bit-identical; nonce and query data are exempt.",
             "Rayon's scheduler cannot be controlled: interleavings are sampled (pool sizes x repetitions), not enumerated; a divergence needing a rare interleaving can be missed. TSan is not used (crossbeam's fence-based synchronisation yields false reports).",
             "DESIGN.md 3/C14"),
     "C10": ("exploration", "vf-crypto",
@@ -103,7 +103,7 @@ CHECKS = {
             "DESIGN.md 3/C11"),
     "C19": ("exploration", "vf-crypto",
             "stateful property-based testing (model-based) against a reference coin built on the reference hashers, plus metamorphic history perturbation",
-            "Generated-input search over histories of 1..30 operations (new / reseed / draw base, quadratic, cubic / draw_integers with count 1..255 below 2^1..2^32 / check_leading_zeros / the prover's grinding loop / requests documented to panic) on 12 hasher x field coins: two real coins (given representation vs canonical rebuild) and a reference coin are compared after every step (determinism, reference agreement, canonical serialisable elements, exactly count integers below the domain, proof-of-work measure), and up to four minimally different histories (seed element +1, reseed bit, nonce +-1, one extra draw) must change the next four base draws.",
+            "Generated-input search over histories of 1..30 operations (new / reseed / draw base, quadratic, cubic / draw_integers with count 1..255 below 2^1..2^32 / check_leading_zeros / the prover's grinding loop / requests documented to panic) on 12 hasher x field coins: two real coins (given representation vs canonical rebuild) and a reference coin are compared after every step (determinism, reference agreement, canonical serialisable elements, exactly count integers below the domain, proof-of-work measure), and up to four minimally different histories (seed element +1, reseed bit, nonce +-1, one extra draw) must change the next four base draws. Rejection sampling is additionally driven with chosen candidates through a scripted hasher (p, p+-1, 2p, top of the byte range, ... for base, quadratic and cubic draws): the first candidate with every coefficient below p must be returned, canonical, nothing after it consumed.",
             "The proof-of-work measure is modelled as implemented (trailing zeros of the first 8 bytes read little-endian), which differs from the wording of the doc comment. The extra-draw perturbation is asserted when the extra draw directly precedes the observed draws (rejection sampling can legitimately re-synchronise otherwise; counted as a label). FailedToDrawFieldElement accepted for cubic f62 only.",
             "DESIGN.md 3/C19"),
 }
